@@ -71,6 +71,38 @@ theorem gf_assign_order_free (ch₁ ch₂ : List (List Nat)) (hp : ch₁.Perm ch
   rw [Bool.eq_iff_iff, List.contains_iff_mem, List.contains_iff_mem]
   exact (hp.flatMap_right id).mem_iff
 
+/-- **a conditional plan whose conditions all carry the same `p` is the unconditional plan `p`** (row by
+    row: numerator, StochasticIPTW weight, StochasticTMLE clever covariate), for every row selected by one of
+    the exclusive conditions; in particular a one-pair listing whose condition selects everybody -/
+theorem cond_const_eq_uncond (cs : List (Cond F)) (p : F) (r : Row F) (g : Row F → F) (hx : Exclusive cs r.i)
+    (hp : ∀ c ∈ cs, c.p = p) (c : Cond F) (hc : c ∈ cs) (hm : c.mask r.i = true) :
+    planNumer (.cond cs) r = planNumer (.uncond p) r ∧
+    stochWeight (.cond cs) g r = stochWeight (.uncond p) g r ∧
+    haw (.cond cs) g r = haw (.uncond p) g r := by
+  have h : planNumer (.cond cs) r = planNumer (.uncond p) r := by
+    have := overwrite_of_mem (numerPairs r.a cs) r.i (exclAt_numerPairs r.a cs r.i hx)
+      (c.mask, fun _ => recv r.a c.p) (List.mem_map.mpr ⟨c, hc, rfl⟩) hm
+    simp only [planNumer, this, hp c hc]
+  exact ⟨h, by simp [stochWeight, h], by simp [haw, h]⟩
+
+/-- … hence the StochasticIPTW estimates coincide when the conditions are exhaustive -/
+theorem stoch_iptw_const_eq_uncond (cs : List (Cond F)) (p : F) (l : List (Row F)) (g : Row F → F)
+    (hx : ∀ r ∈ l, Exclusive cs r.i) (hp : ∀ c ∈ cs, c.p = p)
+    (hcover : ∀ r ∈ l, ∃ c ∈ cs, c.mask r.i = true) :
+    stochIptw (.cond cs) g l = stochIptw (.uncond p) g l := by
+  have hn : ∀ r ∈ l, planNumer (.cond cs) r = planNumer (.uncond p) r := by
+    intro r hr; obtain ⟨c, hc, hm⟩ := hcover r hr
+    exact (cond_const_eq_uncond cs p r g (hx r hr) hp c hc hm).1
+  have hw : ∀ r ∈ l, stochW (.cond cs) g r = stochW (.uncond p) g r := by
+    intro r hr; obtain ⟨c, hc, hm⟩ := hcover r hr
+    simp [stochW, (cond_const_eq_uncond cs p r g (hx r hr) hp c hc hm).2.1]
+  unfold stochIptw
+  have hall : l.all (fun r => (planNumer (.cond cs) r).isSome) = l.all (fun r => (planNumer (.uncond p) r).isSome) := by
+    rw [Bool.eq_iff_iff, List.all_eq_true, List.all_eq_true]
+    exact ⟨fun h r hr => by rw [← hn r hr]; exact h r hr, fun h r hr => by rw [hn r hr]; exact h r hr⟩
+  rw [hall, sumBy_congr (fun r hr => by rw [hw r hr] : ∀ r ∈ l, r.y * stochW (.cond cs) g r = r.y * stochW (.uncond p) g r),
+    sumBy_congr hw]
+
 /-! ### Probabilities 0 and 1 reproduce the deterministic rules -/
 
 /-- **StochasticIPTW, p ≡ 1 / p ≡ 0** (unconditionally or through any set of conditions): the estimate is
